@@ -79,6 +79,36 @@ def fam_c03(man):
     return out
 
 
+def fam_c04_format(man):
+    """format() depends only on the compact form: compact x = compact y -> format x = format y
+    (so the formatted text does not depend on how the number was written; with compact (validate x) = validate x
+    this gives format(x) = format(validate(x)))"""
+    F = man['functions']
+    out = []
+    for mod, m in sorted(man['modules'].items()):
+        v, c = F.get(mod + ':format'), F.get(mod + ':compact')
+        if not v or not c or not v['ok'] or not c['ok']:
+            continue
+        if not v['params'] or v['ptypes'][0] != 'str' or c['ptypes'][:1] != ['str']:
+            continue
+        ns = m['ns']
+        vb = ['(%s : %s)' % (mangle(p) + "'", lean_type(t)) for p, t in zip(v['params'][1:], v['ptypes'][1:])]
+        today = '(today__ : Date) ' if (v['today'] or c['today']) else ''
+        copts = ' '.join('(%s : %s)' % ('c_' + mangle(p), lean_type(t)) for p, t in zip(c['params'][1:], c['ptypes'][1:]))
+        cargs = ''.join(' c_' + mangle(p) for p in c['params'][1:])
+        ct = ' today__' if c['today'] else ''
+        hyp = '%s%s x%s = %s%s y%s' % (c['lean'], ct, cargs, c['lean'], ct, cargs)
+        if copts:
+            hyp = '∀ %s, %s' % (copts, hyp)
+        vt = ' today__' if v['today'] else ''
+        vargs = ''.join(' ' + mangle(p) + "'" for p in v['params'][1:])
+        name = 'Props.Auto.C04.%s.format_of_compact' % ns
+        src = ('theorem %s %s(x y : Str) %s\n    (h : %s) :\n    %s%s x%s = %s%s y%s := by\n  unfold %s\n  simp only [h]\n' % (
+            name, today, ' '.join(vb), hyp, v['lean'], vt, vargs, v['lean'], vt, vargs, v['lean']))
+        out.append({'name': name, 'ns': ns, 'covers': mod, 'family': 'C04', 'src': src, 'imports': ['Gen.' + ns], 'prelude': 'open Py\n'})
+    return out
+
+
 def fam_c01_isvalid(man):
     """is_valid(x, o) = (validate(x, o) returned a non-empty value), and it raises only what validate raises
     outside the ValidationError hierarchy"""
@@ -142,8 +172,8 @@ def fam_c01_nonempty(man):
     return _contract(man, 'C01n', 'v ≠ []', 'validate_nonempty')
 
 
-FAMILIES = {'C03': fam_c03, 'C01v': fam_c01_isvalid, 'C01c': fam_c01_contract, 'C01n': fam_c01_nonempty}
-FAMILY_PROPERTY = {'C03': 'C03', 'C01v': 'C01', 'C01c': 'C01', 'C01n': 'C01'}
+FAMILIES = {'C03': fam_c03, 'C04': fam_c04_format, 'C01v': fam_c01_isvalid, 'C01c': fam_c01_contract, 'C01n': fam_c01_nonempty}
+FAMILY_PROPERTY = {'C03': 'C03', 'C04': 'C04', 'C01v': 'C01', 'C01c': 'C01', 'C01n': 'C01'}
 
 
 def emit(all_candidates=False, only_family=None):
